@@ -20,6 +20,7 @@ import (
 	"sort"
 	"strconv"
 	"strings"
+	"sync"
 	"time"
 
 	"github.com/DistCompiler/pgo/distsys"
@@ -265,6 +266,97 @@ func (e *elem) PreCommit(iface distsys.ArchetypeInterface) chan error {
 	return out
 }
 
+// netProxy forwards TCP connections to a target and can reset all of them ("the peer closes the connection in
+// the middle of a section") or refuse service for a while
+type netProxy struct {
+	ln     net.Listener
+	target string
+	mu     sync.Mutex
+	conns  []net.Conn
+	down   bool
+	// connections registered since the last cut: a successful WriteValue of the sender implies that it has dialed,
+	// and the harness then waits until the forwarder has taken that connection over, so that a later cut hits it
+	registered int
+}
+
+func newNetProxy(target string) *netProxy {
+	ln, err := net.Listen("tcp", "127.0.0.1:0")
+	if err != nil {
+		panic(err)
+	}
+	p := &netProxy{ln: ln, target: target}
+	go func() {
+		for {
+			c, err := ln.Accept()
+			if err != nil {
+				return
+			}
+			p.mu.Lock()
+			down := p.down
+			p.mu.Unlock()
+			if down {
+				reset(c)
+				continue
+			}
+			d, err := net.Dial("tcp", p.target)
+			if err != nil {
+				reset(c)
+				continue
+			}
+			p.mu.Lock()
+			p.conns = append(p.conns, c, d)
+			p.registered++
+			p.mu.Unlock()
+			go func() { io.Copy(d, c); reset(d); reset(c) }()
+			go func() { io.Copy(c, d); reset(c); reset(d) }()
+		}
+	}()
+	return p
+}
+
+func reset(c net.Conn) {
+	if t, ok := c.(*net.TCPConn); ok {
+		t.SetLinger(0)
+	}
+	c.Close()
+}
+
+func (p *netProxy) cut() {
+	p.mu.Lock()
+	conns := p.conns
+	p.conns = nil
+	p.registered = 0
+	p.mu.Unlock()
+	for _, c := range conns {
+		reset(c)
+	}
+}
+
+func (p *netProxy) setDown(d bool) {
+	p.mu.Lock()
+	p.down = d
+	p.mu.Unlock()
+	if d {
+		p.cut()
+	}
+}
+
+func (p *netProxy) waitRegistered() {
+	deadline := time.Now().Add(3 * time.Second)
+	for {
+		p.mu.Lock()
+		n := p.registered
+		p.mu.Unlock()
+		if n > 0 || time.Now().After(deadline) {
+			return
+		}
+		time.Sleep(200 * time.Microsecond)
+	}
+}
+
+func (p *netProxy) addr() string { return p.ln.Addr().String() }
+func (p *netProxy) close()       { p.ln.Close(); p.cut() }
+
 // ---------------------------------------------------------------- resources of a case
 
 type bound struct {
@@ -280,6 +372,7 @@ type bound struct {
 	onFinish func(committed bool)
 	// per-element PreCommit refusal flags of a map resource, by element key
 	elemRefuse map[string]*bool
+	proxy      *netProxy // networked senders: the forwarder between the sender and its peer
 }
 
 var sentinel = tla.MakeString("\x00full")
@@ -620,18 +713,21 @@ func (r *runner) makeBound(d resDesc) *bound {
 		opts := []resources.MailboxesOption{resources.WithMailboxesReadTimeout(40 * time.Millisecond),
 			resources.WithMailboxesWriteTimeout(500 * time.Millisecond), resources.WithMailboxesDialTimeout(500 * time.Millisecond)}
 		recvSide := mk(func(tla.Value) (resources.MailboxKind, string) { return resources.MailboxesLocal, addr }, opts...)
-		sendSide := mk(func(tla.Value) (resources.MailboxKind, string) { return resources.MailboxesRemote, addr }, opts...)
+		b.proxy = newNetProxy(addr)
+		sendAddr := b.proxy.addr()
+		sendSide := mk(func(tla.Value) (resources.MailboxKind, string) { return resources.MailboxesRemote, sendAddr }, opts...)
 		local, err := recvSide.Index(r.scratch, tla.MakeNumber(0)) // starts listening
 		if err != nil {
 			panic(err)
 		}
 		b.res = sendSide
+		b.env = func(ev []interface{}) { b.proxy.setDown(!ev[2].(bool)) } // ["net", name, up?]
 		seen := []interface{}{}
 		expected, pending := 0, 0
 		if d.Kind == "relaxed" {
-			b.onWrite = func() { expected++ }
+			b.onWrite = func() { expected++; b.proxy.waitRegistered() }
 		} else {
-			b.onWrite = func() { pending++ }
+			b.onWrite = func() { pending++; b.proxy.waitRegistered() }
 			b.onFinish = func(committed bool) {
 				if committed {
 					expected += pending
@@ -656,7 +752,89 @@ func (r *runner) makeBound(d resDesc) *bound {
 			}
 			return tup(tup(append([]interface{}{}, seen...)...))
 		}
-		b.close = func() { recvSide.Close() }
+		b.close = func() { b.proxy.close(); recvSide.Close() }
+	case "nested":
+		// a resource implemented by a nested archetype: a variable served over the request/ack protocol
+		var inner *distsys.MPCalContext
+		str := tla.MakeString
+		ack := func(tpe string, fields ...tla.RecordField) tla.Value {
+			return tla.MakeRecord(append(fields, tla.RecordField{Key: str("tpe"), Value: str(tpe)}))
+		}
+		innerArch := distsys.MPCalArchetype{
+			Name: "N", Label: "N.l", RequiredRefParams: []string{"N.in", "N.out"},
+			JumpTable: distsys.MakeMPCalJumpTable(distsys.MPCalCriticalSection{Name: "N.l", Body: func(iface distsys.ArchetypeInterface) error {
+				in, err := iface.RequireArchetypeResourceRef("N.in")
+				if err != nil {
+					return err
+				}
+				out, err := iface.RequireArchetypeResourceRef("N.out")
+				if err != nil {
+					return err
+				}
+				cur := iface.RequireArchetypeResource("N.cur")
+				old := iface.RequireArchetypeResource("N.old")
+				req, err := iface.Read(in, nil)
+				if err != nil {
+					return err
+				}
+				var resp tla.Value
+				switch req.ApplyFunction(str("tpe")).AsString() {
+				case "read_req":
+					v, err := iface.Read(cur, nil)
+					if err != nil {
+						return err
+					}
+					resp = ack("read_ack", tla.RecordField{Key: str("value"), Value: v})
+				case "write_req":
+					if err := iface.Write(cur, nil, req.ApplyFunction(str("value"))); err != nil {
+						return err
+					}
+					resp = ack("write_ack")
+				case "precommit_req":
+					resp = ack("precommit_ack")
+				case "abort_req":
+					o, err := iface.Read(old, nil)
+					if err != nil {
+						return err
+					}
+					if err := iface.Write(cur, nil, o); err != nil {
+						return err
+					}
+					resp = ack("abort_ack")
+				case "commit_req":
+					c, err := iface.Read(cur, nil)
+					if err != nil {
+						return err
+					}
+					if err := iface.Write(old, nil, c); err != nil {
+						return err
+					}
+					resp = ack("commit_ack")
+				default:
+					panic("nested archetype: unknown request")
+				}
+				return iface.Write(out, nil, resp)
+			}}),
+			ProcTable: distsys.MakeMPCalProcTable(),
+			PreAmble: func(iface distsys.ArchetypeInterface) {
+				iface.EnsureArchetypeResourceLocal("N.cur", toTLA(d.Init))
+				iface.EnsureArchetypeResourceLocal("N.old", toTLA(d.Init))
+			},
+		}
+		b.res = resources.NewNested(func(sendCh chan<- tla.Value, receiveCh <-chan tla.Value) []*distsys.MPCalContext {
+			inner = distsys.NewMPCalContext(tla.MakeString("inner"+uniq), innerArch,
+				distsys.EnsureArchetypeRefParam("in", resources.NewInputChan(receiveCh, resources.WithInputChanReadTimeout(5*time.Millisecond))),
+				distsys.EnsureArchetypeRefParam("out", resources.NewOutputChan(sendCh)))
+			return []*distsys.MPCalContext{inner}
+		})
+		b.snap = func([]interface{}) (v interface{}) {
+			defer func() {
+				if recover() != nil {
+					v = d.Init // the nested archetype has not run its preamble yet
+				}
+			}()
+			return fromTLA(inner.IFace().ReadArchetypeResourceLocal("N.cur"))
+		}
 	case "placeholder":
 		b.res = resources.NewPlaceHolder()
 	case "crdt":
@@ -692,7 +870,14 @@ func (r *runner) makeBound(d resDesc) *bound {
 		}
 		fd.Abort(r.scratch)
 		b.res = fd
-		b.snap = func([]interface{}) interface{} { v, _ := single.ReadValue(r.scratch); return fromTLA(v) }
+		b.snap = func(keys []interface{}) interface{} {
+			out := []interface{}{}
+			for range keys {
+				v, _ := single.ReadValue(r.scratch)
+				out = append(out, fromTLA(v))
+			}
+			return tup(out...)
+		}
 	case "tcp_local", "relaxed_local":
 		// the archetype under test is the receiver; the harness commits batches as the sender
 		addr := freeAddr()
@@ -844,6 +1029,9 @@ func (r *runner) body(iface distsys.ArchetypeInterface) (err error) {
 				return err
 			}
 			r.curTr = append(r.curTr, nil)
+		case "cut":
+			// the peer resets every connection of this mailbox now
+			r.bounds[op[1].(string)].proxy.cut()
 		case "await":
 			if !op[1].(bool) {
 				return distsys.ErrCriticalSectionAborted
